@@ -294,56 +294,43 @@ def isolang(run, p):
 
 
 def precedence(run, p):
-    run.rule('C16-EXPLICIT', 'what the CSVW dialect states explicitly wins over what is inherited from the dc:replaces provenance: in '
-                             'get_dialect every store into the dialect is reached only under a test that the same key is absent from '
-                             'it (dialect.get(k) is None / not dialect.get(k) / k not in dialect)')
+    import json
+    from ..pyeval import Interp, Obj, Unsupported, Raised
+    run.rule('C16-EXPLICIT', 'what the CSVW dialect states explicitly wins over what is inherited from the dc:replaces provenance: '
+                             'get_dialect, evaluated on metadata whose dialect does / does not give the delimiter and the encoding '
+                             'while dc:replaces gives other ones, leaves every explicit value alone and fills in only what is missing')
     f = p.method('CSVWMetadata', 'get_dialect')
-    gm = GuardMap(f.node)
-    names = set()
-    for s in p.own_nodes(f):
-        if isinstance(s, ast.Assign) and isinstance(s.value, ast.Call) and norm(s.value.func).endswith('.get') and \
-                s.value.args and isinstance(s.value.args[0], ast.Constant) and s.value.args[0].value == 'dialect':
-            for t in s.targets:
-                if isinstance(t, ast.Name):
-                    names.add(t.id)
-    if not names:
-        raise AnalysisError('get_dialect no longer binds the dialect dictionary')
+    prov = json.dumps({'resources': [{'encoding': 'latin-1', 'dialect': {'csv': {'delimiter': ';'}}}]})
     n = 0
-    for s in p.own_nodes(f):
-        tgts = []
-        if isinstance(s, ast.Assign):
-            tgts = [t for t in s.targets if isinstance(t, ast.Subscript) and isinstance(t.value, ast.Name) and t.value.id in names]
-        elif isinstance(s, ast.Call) and isinstance(s.func, ast.Attribute) and s.func.attr in ('update', 'setdefault') and \
-                isinstance(s.func.value, ast.Name) and s.func.value.id in names:
-            n += 1
-            ok = s.func.attr == 'setdefault'
-            run.ob('C16-EXPLICIT', '%s::%s::%s' % (f.rel, f.short, norm(s)[:50]), ok,
-                   '%s %s' % (norm(s)[:50], 'only fills a missing key' if ok else 'overwrites explicit dialect keys'), fn=f, node=s)
-        for t in tgts:
-            n += 1
-            k = norm(t.slice)
-            d = t.value.id
+    for what, dialect, want in (
+            ('both explicit', {'delimiter': '|', 'encoding': 'utf-16'}, {'delimiter': '|', 'encoding': 'utf-16'}),
+            ('delimiter explicit', {'delimiter': '|'}, {'delimiter': '|', 'encoding': 'latin-1'}),
+            ('encoding explicit', {'encoding': 'utf-16'}, {'delimiter': ';', 'encoding': 'utf-16'}),
+            ('neither', {}, {'delimiter': ';', 'encoding': 'latin-1'}),
+            ('other keys only', {'header': False, 'quoteChar': "'"}, {'delimiter': ';', 'encoding': 'latin-1', 'header': False, 'quoteChar': "'"}),
+            ('no provenance', {'delimiter': '|'}, {'delimiter': '|'})):
+        o = Obj(p.cls('CSVWMetadata'))
+        csvw = {'dialect': dict(dialect)}
+        if what != 'no provenance':
+            csvw['dc:replaces'] = prov
+        o.attrs.update(_csvw=csvw, errors=[], warnings=[], _verbosity=0)
+        I = Interp(p)
 
-            def absent(e, pol, k=k, d=d):
-                txt = norm(e)
-                if txt == '%s.get(%s) is None' % (d, k) and pol:
-                    return True
-                if txt == '%s.get(%s) is not None' % (d, k) and not pol:
-                    return True
-                if txt == '%s.get(%s)' % (d, k) and not pol:
-                    return True
-                if txt == '%s not in %s' % (k, d) and pol:
-                    return True
-                if txt == '%s in %s' % (k, d) and not pol:
-                    return True
-                return False
-            ch = gm.chain(s) or ()
-            ok = any(g.kind == 'if' and guard_requires(g.test, g.pol, absent) for g in ch)
-            run.ob('C16-EXPLICIT', '%s::%s::%s[%s]' % (f.rel, f.short, d, k), ok,
-                   '%s[%s] is filled from dc:replaces %s' % (d, k, 'only when the dialect does not give it' if ok else
-                                                            'without testing that the dialect lacks it: an explicit value is overwritten'),
-                   fn=f, node=s)
-    run.floor('C16-EXPLICIT', n, 2)
+        def hook(m, args, kwargs, selfobj):
+            if m.name in ('process_dialect', 'warn', 'error'):
+                return True, None
+            return False, None
+        I.on_call = hook
+        try:
+            I.call(f, [], selfobj=o)
+        except (Unsupported, Raised) as e:
+            raise AnalysisError('get_dialect is not evaluable: %s' % e)
+        n += 1
+        got = o.attrs.get('_dialect')
+        got = {k: v for k, v in (got or {}).items() if v is not None}
+        run.ob('C16-EXPLICIT', '%s::%s::%s' % (f.rel, f.short, what), got == want,
+               'dialect %r with dc:replaces giving latin-1 and ";": the dialect used is %r%s' % (dialect, got, '' if got == want else ', expected %r' % want), fn=f)
+    run.floor('C16-EXPLICIT', n, 6)
 
 
 def declared(run, p):
